@@ -305,6 +305,15 @@ where
         // read the remainder polynomial from the channel and make sure it agrees with the evaluations
         // from the previous layer.
         let remainder_poly = channel.read_remainder()?;
+
+        // the prover committed to the remainder polynomial (the last of the layer commitments)
+        // before the query positions were drawn; make sure the polynomial we were given is the
+        // one behind that commitment, otherwise it could have been chosen to fit the queries
+        let remainder_commitment = H::hash_elements(&remainder_poly);
+        if self.layer_commitments.last() != Some(&remainder_commitment) {
+            return Err(VerifierError::RemainderCommitmentMismatch);
+        }
+
         if remainder_poly.len() > max_degree_plus_1 {
             return Err(VerifierError::RemainderDegreeMismatch(max_degree_plus_1 - 1));
         }
